@@ -693,6 +693,9 @@ func (b *Builder) FPFromBits(x *Term, s *Sort) *Term {
 	if x.Op == "bv" {
 		return b.FPC(x.Val, s)
 	}
+	if x.Op == "uf" && strings.HasPrefix(x.Name, "fp2bits_") && x.Args[0].S == s {
+		return x.Args[0]
+	}
 	return b.mk("to_fp_bits", "", 0, s, x)
 }
 
@@ -706,18 +709,26 @@ func (b *Builder) FPToBits(x *Term) *Term {
 	if x.Op == "fpc" {
 		return b.BVC(x.Val, w)
 	}
-	name := fmt.Sprintf("bits!%d", x.ID)
-	v := b.Var(name, BV(w))
-	if _, ok := b.Defs[name]; !ok {
-		b.Defs[name] = b.Eq(b.mk("to_fp_bits", "", 0, x.S, v), x)
+	// The bit pattern is a function of the value (NaN payloads are identified: one canonical NaN
+	// pattern), so equal floats have equal patterns: fp2bits is uninterpreted with
+	// to_fp(fp2bits(f)) == f.
+	name := fmt.Sprintf("fp2bits_%d", x.S.M)
+	if _, ok := b.UFs[name]; !ok {
+		f := b.BoundVar("fpf", x.S)
+		app := b.UF(name, BV(w), f)
+		b.AddAxiom(name, b.Forall([]*Term{f}, b.Eq(b.mk("to_fp_bits", "", 0, x.S, app), f)))
 	}
-	return v
+	return b.UF(name, BV(w), x)
 }
 
 // FPConv converts between float formats (RNE).
 func (b *Builder) FPConv(x *Term, s *Sort) *Term {
 	if x.S == s {
 		return x
+	}
+	// narrowing back an exact widening: float32(float64(v)) == v for every binary32 v (NaNs identified)
+	if x.Op == "to_fp_fp" && x.Args[0].S == s && x.S.M > s.M {
+		return x.Args[0]
 	}
 	return b.mk("to_fp_fp", "RNE", 0, s, x)
 }
